@@ -146,11 +146,11 @@ def commitUnit (o : Ops α) (c : Consts α) (et : Time α) (changes : List (List
     match u.vel with
     | none => { u with vel := some ch, ts := some et }
     | some v =>
-      -- `_time_slice_unit`: velocity is not None
+      -- `_time_slice_unit`: velocity is not None; `correct_position_entry` is `JF.pywrap`
       let dt : α := match u.ts with
         | some ts => Time.sub et ts
         | none => o.ofInt 0   -- unreachable: an active unit carries a time stamp
-      let pos := List.zipWith (fun p vd => pymod o (p + vd * dt) c.L) u.pos v
+      let pos := List.zipWith (fun p vd => pywrap o (p + vd * dt) c.L) u.pos v
       let v' := List.zipWith (· + ·) v ch
       if v'.all (fun x => absLt o x c.tiny) then { u with pos := pos, vel := none, ts := none }
       else { u with pos := pos, vel := some v', ts := some et }
